@@ -197,9 +197,11 @@ def add_for_loop_no_yield_nodes(bytecode: Bytecode) -> Bytecode:  # noqa: D103
 
 def get_branch_type(opcode: int) -> bool | None:  # noqa: D103
     match opname[opcode]:
-        case "POP_JUMP_IF_TRUE" | "POP_JUMP_IF_NOT_NONE":
+        case "POP_JUMP_IF_TRUE" | "POP_JUMP_IF_NOT_NONE" | "POP_JUMP_IF_NONE":
+            # For the None-based jumps the reported predicate ("is None" / "is not None")
+            # is the jump condition itself, i.e., it is true iff the jump is taken.
             return True
-        case "POP_JUMP_IF_FALSE" | "POP_JUMP_IF_NONE" | "FOR_ITER":
+        case "POP_JUMP_IF_FALSE" | "FOR_ITER":
             return False
         case _:
             return None
